@@ -30,7 +30,7 @@ META = {
 NUMBERS = (0, 1, -2, 0.5)
 DIVS = (2, -4, 0.5)
 COEF_BOUND = 64
-SCHEMES = ("int", "rstr")
+SCHEMES = ("int", "rstr", "tuple")     # tuple-typed labels: first level of operator applications only
 
 # leaves over indices 0,1,2 (model leaves are canonical; the raw spelling is dict-only)
 LEAVES = [
@@ -121,6 +121,8 @@ def enabled(hist, r):
     if not hist:
         return roots()
     kind, scheme = hist[0][1], hist[0][2]
+    if scheme == "tuple" and len(hist) >= 2:
+        return []
     if (kind, scheme) not in _MENUS:
         _MENUS[(kind, scheme)] = op_menu(kind, scheme)
     return _MENUS[(kind, scheme)]
